@@ -135,16 +135,45 @@ func containsRuntime(t types.Type, depth int, seen map[types.Type]bool) (bool, s
 	return false, ""
 }
 
-// C10: ECMAScript isolation.
-func C10(c *Ctx) {
-	c.R.Explanation = "Decides structural necessary conditions of 'scripts are isolated from the host and from each other': (R1) the goja runtime used by an execution is created by goja.New() in that same activation of Exec, and no package-level variable or struct field of package ecmascript can hold a runtime (directly, or in a sync.Pool/sync.Map); (R2) nothing reachable from the caller's bindings, and not the caller's props map itself, is reachable from any value handed to the runtime (Runtime.Set / ToValue), i.e. arguments reach scripts only through copies; (R3) no instruction in Exec's closure writes through the receiver, the parameters or a package-level variable. Decided for all scripts and schedules by points-to analysis; goja internals are assumed isolated per runtime (A3)."
-	c.R.Rule("C10-R1", "E1+E7", "runtime is fresh per execution; no field/global can hold a runtime", 3)
-	c.R.Rule("C10-R2", "E1", "caller's bindings (any depth) and props map never reachable from values given to the runtime", 1)
-	c.R.Rule("C10-R3", "E1", "Exec writes nothing shared (receiver, parameters, globals)", 5)
-	a, exec := c.ecmaAnalysis()
-	if a == nil {
-		return
+// scriptIsolation is the shared rule "arguments reach scripts only through
+// copies": nothing reachable from the caller's bindings (and not the props map
+// itself) is reachable from a value handed to the script runtime.  Used by
+// C06-R3 and C18-R4 (C10-R2 is the same rule).
+func (c *Ctx) scriptIsolation(rule string, a *pta.Analysis, bindingsOnly bool) int {
+	n := 0
+	eidx := map[string]int{}
+	for _, e := range a.Escapes {
+		if strings.HasPrefix(e.To, "(*sync.") {
+			continue
+		}
+		reach := a.Reach(a.NodeLocs(e.Node))
+		base := fname(e.Instr.Parent()) + ":" + e.To
+		eidx[base]++
+		key := fmt.Sprintf("%s#%d", base, eidx[base])
+		var bad []string
+		for o := range reach {
+			if o.Kind != pta.KRoot {
+				continue
+			}
+			switch {
+			case o.Root == "bs":
+				bad = append(bad, o.Name)
+			case o.Root == "props" && o.Depth == 0 && !bindingsOnly:
+				bad = append(bad, o.Name)
+			}
+		}
+		sort.Strings(bad)
+		n++
+		c.R.Check(len(bad) == 0, rule, key, c.pos(e.Instr),
+			fmt.Sprintf("%d objects reachable from the value; none is the caller's bindings (any depth)", len(reach)),
+			"a value handed to the script runtime can reach caller-owned data, so a script can change it in place: "+strings.Join(bad, ", "))
 	}
+	return n
+}
+
+// runtimeFresh is the shared rule "the goja runtime used by an execution is
+// created by goja.New() in that activation of Exec" (C10-R1, C12-R6).
+func (c *Ctx) runtimeFresh(rule string, a *pta.Analysis, exec *ssa.Function) {
 	// R1a: runtime receivers
 	uses := runtimeUses(a)
 	if len(uses) == 0 {
@@ -175,9 +204,22 @@ func C10(c *Ctx) {
 		}
 		base := fname(u.Site.Parent()) + ":" + strings.TrimPrefix(ssau.CalleeName(u.Site), "(*"+gojaRuntime+".Runtime).")
 		idx[base]++
-		c.R.Check(ok, "C10-R1", fmt.Sprintf("%s#%d", base, idx[base]), c.pos(u.Site), "receiver is only the goja.New() result of this activation",
+		c.R.Check(ok, rule, fmt.Sprintf("%s#%d", base, idx[base]), c.pos(u.Site), "receiver is only the goja.New() result of this activation",
 			"runtime receiver may be something other than a runtime created by goja.New() in this execution: "+strings.Join(names, ", "))
 	}
+}
+
+// C10: ECMAScript isolation.
+func C10(c *Ctx) {
+	c.R.Explanation = "Decides structural necessary conditions of 'scripts are isolated from the host and from each other': (R1) the goja runtime used by an execution is created by goja.New() in that same activation of Exec, and no package-level variable or struct field of package ecmascript can hold a runtime (directly, or in a sync.Pool/sync.Map); (R2) nothing reachable from the caller's bindings, and not the caller's props map itself, is reachable from any value handed to the runtime (Runtime.Set / ToValue), i.e. arguments reach scripts only through copies; (R3) no instruction in Exec's closure writes through the receiver, the parameters or a package-level variable. Decided for all scripts and schedules by points-to analysis; goja internals are assumed isolated per runtime (A3)."
+	c.R.Rule("C10-R1", "E1+E7", "runtime is fresh per execution; no field/global can hold a runtime", 3)
+	c.R.Rule("C10-R2", "E1", "caller's bindings (any depth) and props map never reachable from values given to the runtime", 1)
+	c.R.Rule("C10-R3", "E1", "Exec writes nothing shared (receiver, parameters, globals)", 5)
+	a, exec := c.ecmaAnalysis()
+	if a == nil {
+		return
+	}
+	c.runtimeFresh("C10-R1", a, exec)
 	// R1b: no storage for runtimes
 	if pk := c.P.SSAPkgs[prog.Abs("interpreters/ecmascript")]; pk != nil {
 		var names []string
